@@ -617,7 +617,27 @@ func c13Random(r *Run) {
 		t.Begin("archive-fault")
 		p := members[t.Draw(len(members), "member")]
 		b, _ := w.Disk.Get(p)
-		fault := []string{"flip", "truncate", "delete", "empty", "garbage", "delete-all-recovery"}[t.Pick([]int{6, 6, 2, 1, 1, 1}, "fault")]
+		fault := []string{"flip", "truncate", "delete", "empty", "garbage", "delete-all-recovery", "holds-sibling"}[t.Pick([]int{6, 6, 2, 1, 1, 1, 1}, "fault")]
+		if fault == "holds-sibling" {
+			// overwritten not with noise but with another valid file of the
+			// same set (a sibling recovery file, or the index)
+			k := ""
+			switch {
+			case par1Set && t.Bool(3, 4, "sibling"):
+				k = w.hostilePar1Kind(r, "volume-holds-sibling")
+			case par1Set:
+				k = w.hostilePar1Kind(r, "volume-holds-index")
+			case t.Bool(3, 4, "sibling"):
+				k = w.hostileRecoveryKind(r, "recovery-holds-sibling")
+			default:
+				k = w.hostileRecoveryKind(r, "recovery-holds-index")
+			}
+			if k != "none" {
+				faults = append(faults, k)
+			}
+			t.End()
+			continue
+		}
 		off, bit := 0, 0
 		if len(b) > 0 {
 			off = t.Draw(len(b), "off")
